@@ -117,7 +117,11 @@ impl<'de, R: Reader<'de>> Deserializer<R> {
     where
         T: de::Deserialize<'de>,
     {
-        de::Deserialize::deserialize(self)
+        // errors made by visitors (serde-generated code) carry no position
+        match de::Deserialize::deserialize(&mut *self) {
+            Ok(value) => Ok(value),
+            Err(err) => Err(self.parser.fix_position(err)),
+        }
     }
 
     /// Convert Deserializer to a [`StreamDeserializer`].
@@ -912,7 +916,10 @@ impl<'de, 'a, R: Reader<'de>> de::Deserializer<'de> for &'a mut Deserializer<R> 
                 self.parser.read.eat(1);
                 let value = {
                     let _ = DepthGuard::guard(self);
-                    tri!(visitor.visit_enum(VariantAccess::new(self)))
+                    match visitor.visit_enum(VariantAccess::new(self)) {
+                        Ok(value) => value,
+                        Err(err) => return Err(self.parser.fix_position(err)),
+                    }
                 };
 
                 match self.parser.skip_space() {
@@ -921,7 +928,10 @@ impl<'de, 'a, R: Reader<'de>> de::Deserializer<'de> for &'a mut Deserializer<R> 
                     None => Err(self.parser.error(ErrorCode::EofWhileParsing)),
                 }
             }
-            Some(b'"') => visitor.visit_enum(UnitVariantAccess::new(self)),
+            Some(b'"') => match visitor.visit_enum(UnitVariantAccess::new(self)) {
+                Ok(value) => Ok(value),
+                Err(err) => Err(self.parser.fix_position(err)),
+            },
             Some(_) => Err(self.parser.error(ErrorCode::InvalidJsonValue)),
             None => Err(self.parser.error(ErrorCode::EofWhileParsing)),
         }
@@ -1363,7 +1373,7 @@ where
         de = de.utf8_lossy();
     }
 
-    let value = tri!(de::Deserialize::deserialize(&mut de));
+    let value = tri!(de.deserialize());
 
     // Make sure the whole stream has been consumed.
     tri!(de.parser.parse_trailing());
